@@ -10,9 +10,9 @@ from ..world import default_component_names, geo_of, plate, ref_vols, ref_wells,
 
 def W1():
     return [
-        plate("P", 2, 3, 10, 200, 100),
+        dict(plate("P", 2, 3, 10, 200, [[100, 100, 100], [100, 100, 100]]), np=True),
         plate("Q", 3, 2, 0, 150, 0),
-        trough("T", 3, 2, 20, 1000, [500, 300]),
+        dict(trough("T", 3, 2, 20, 1000, [500, 300]), np=True),
     ]
 
 
@@ -39,6 +39,20 @@ def W4():
         plate("Q", 16, 24, 0, 200, 0),
         trough("T", 8, 3, 100, 100000, [50000, 40000, 30000]),
     ]
+
+
+def callers_arrays_unchanged(W, config):
+    """arrays the 'caller' handed to the constructors (spec np=True / share=tag) still hold the initial values"""
+    bad = []
+    for s in config["labware"]:
+        key = "caller:" + s["name"] if s.get("np") else s.get("share")
+        if key is None or key not in W.get("shared", {}):
+            continue
+        import numpy as np
+
+        if not np.array_equal(W["shared"][key], np.array(s["init"], dtype=float)):
+            bad.append(f"the initial_volumes array handed to {s['name']} was modified: {W['shared'][key].tolist()} (given {s['init']})")
+    return bad
 
 
 def spec_of(config, name):
@@ -220,12 +234,12 @@ class BaseB:
                             seq = [pred, case]
                             break
                     if seq is None:
-                        seq = prev[-self.SEQ_WINDOW :] + [case]
+                        seq = list(prev) + [case]  # the whole history of this chunk
                     st.case(outcome + ":order-dependent", {"seq": seq}, key)
                     for clause, detail in viol:
                         st.violation(clause + "/order-dependent", {"seq": seq}, f"only after {len(seq) - 1} earlier call(s) in the same process: {detail}")
                     clear_caches()
-                    for c in prev[-self.SEQ_WINDOW :]:
+                    for c in prev:
                         self.one(c)
                     prev.append(case)
                     continue
@@ -233,8 +247,6 @@ class BaseB:
             for clause, detail in viol:
                 st.violation(clause, case, detail)
             prev.append(case)
-            if len(prev) > 2 * self.SEQ_WINDOW:
-                del prev[: self.SEQ_WINDOW]
 
     def replay(self, case):
         clear_caches()
